@@ -159,6 +159,9 @@ func TestVerif_C35_Unmentioned(t *testing.T) {
 			g.Txns = append(g.Txns, tx)
 			g.Created = append(g.Created, created)
 		}
+		if x.Kind == "box" && c35Chance(t, "decoy-box?", 50) && c35AddDecoyBox(t, g, x) {
+			vk.Label("box-target:same-name-named-for-another-app")
+		}
 		if variant == "elsewhere" {
 			req := c35Req{Acct: -1, Asset: -1, App: -1, BoxApp: -1}
 			switch x.Kind {
